@@ -347,6 +347,40 @@ func famC16(c *hx.Ctx) []*scenario {
 		}
 		add(&scenario{name: fmt.Sprintf("w%d-none", w), w: w, steps: steps})
 	}
+	resume := []step{{kind: "inerr"}, {kind: "reconnect", resumed: true}, in(connectPkt(false, nil))}
+	for w := 2; w <= 4; w++ {
+		for k := 1; k < w; k++ {
+			// k QoS 2 deliveries are driven to the PUBREL state (PUBCOMP withheld), the connection is lost, and after the
+			// resume (PUBRELs re-sent) a full window of new messages arrives unacknowledged: retransmissions count
+			steps := []step{in(connectPkt(false, nil))}
+			for i := 0; i < k; i++ {
+				steps = append(steps, step{kind: "deq", msg: msg(i, 2)})
+			}
+			steps = append(steps, step{kind: "drain"})
+			steps = append(steps, resume...)
+			steps = append(steps, step{kind: "react", name: "none"})
+			for i := 0; i < w+1; i++ {
+				steps = append(steps, step{kind: "deq", msg: msg(10+i, 1+i%2)})
+			}
+			steps = append(steps, step{kind: "settle"})
+			add(&scenario{name: fmt.Sprintf("w%d-pubrel-resumed-k%d", w, k), w: w, react: "recstall", steps: steps})
+			// k deliveries unacknowledged at the loss; after the resume the retransmissions are acknowledged and a burst
+			// of window+1 messages arrives unacknowledged: exactly `window` of them must be delivered before the
+			// dequeuer gives up waiting for a slot
+			steps = []step{in(connectPkt(false, nil)), {kind: "react", name: "none"}}
+			for i := 0; i < k; i++ {
+				steps = append(steps, step{kind: "deq", msg: msg(i, 1+i%2)})
+			}
+			steps = append(steps, step{kind: "settle"})
+			steps = append(steps, resume...)
+			steps = append(steps, step{kind: "react", name: "immediate"}, step{kind: "drain"}, step{kind: "react", name: "none"})
+			for i := 0; i < w+1; i++ {
+				steps = append(steps, step{kind: "deq", msg: msg(10+i, 1+i%2)})
+			}
+			steps = append(steps, step{kind: "settle"}, step{kind: "settle"})
+			add(&scenario{name: fmt.Sprintf("w%d-slots-after-resume-k%d", w, k), w: w, react: "immediate", tokenTO: 60 * time.Millisecond, steps: steps})
+		}
+	}
 	// dequeue token timeout: nothing acknowledged, window full
 	add(&scenario{name: "deq-token-timeout", w: 1, tokenTO: 20 * time.Millisecond, steps: []step{in(connectPkt(false, nil)), {kind: "deq", msg: msg(1, 1)},
 		{kind: "deq", msg: msg(2, 1)}, {kind: "settle"}}})
@@ -435,19 +469,30 @@ func runBC(c *hx.Ctx) {
 	if c.Replay != "" {
 		scs = replayScenarios(c)
 	} else {
-		if family == "" || family == "all" || family == "c20" {
+		want := func(f string) bool {
+			if family == "" || family == "all" {
+				return true
+			}
+			for _, x := range strings.Split(family, ",") {
+				if x == f {
+					return true
+				}
+			}
+			return false
+		}
+		if want("c20") {
 			scs = append(scs, famC20(c)...)
 		}
-		if family == "" || family == "all" || family == "c07" {
+		if want("c07") {
 			scs = append(scs, famC07(c)...)
 		}
-		if family == "" || family == "all" || family == "c08" {
+		if want("c08") {
 			scs = append(scs, famC08(c)...)
 		}
-		if family == "" || family == "all" || family == "c16" {
+		if want("c16") {
 			scs = append(scs, famC16(c)...)
 		}
-		if family == "" || family == "all" || family == "c12" {
+		if want("c12") {
 			scs = append(scs, famC12(c)...)
 		}
 	}
